@@ -186,7 +186,13 @@ impl Storage {
         //
         if self.file_exists(issuance_file).await {
             if let Ok(lines) = self.io_interface.read_value(issuance_file).await {
-                let mut contents = String::from_utf8(lines).unwrap();
+                let mut contents = match String::from_utf8(lines) {
+                    Ok(contents) => contents,
+                    Err(error) => {
+                        error!("issuance file is not text : {:?}", error);
+                        return vec![];
+                    }
+                };
                 contents = contents.trim_end_matches('\r').to_string();
                 let lines: Vec<&str> = contents.split('\n').collect();
 
@@ -201,7 +207,7 @@ impl Storage {
                 }
 
                 for i in 0..v.len() {
-                    tokens_issued += v[i].amount;
+                    tokens_issued = v[i].amount.saturating_add(tokens_issued);
                 }
 
                 info!("{:?} tokens issued", tokens_issued);
@@ -224,6 +230,10 @@ impl Storage {
     /// convert an issuance expression to slip
     fn convert_issuance_into_slip(&self, line: &str) -> Option<Slip> {
         let entries: Vec<&str> = line.split_whitespace().collect();
+        if entries.len() < 3 {
+            error!("couldn't parse line : {:?}", line);
+            return None;
+        }
 
         let result = entries[0].parse::<u64>();
 
@@ -247,14 +257,22 @@ impl Storage {
 
         match publickey_result {
             Ok(val) => {
-                let mut publickey_array: SaitoPublicKey = [0u8; 33];
-                publickey_array.copy_from_slice(&val);
+                let publickey_array: SaitoPublicKey = match val.try_into() {
+                    Ok(key) => key,
+                    Err(_) => {
+                        error!("couldn't parse the key in line : {:?}", line);
+                        return None;
+                    }
+                };
 
                 // VipOutput is deprecated on mainnet
                 let slip_type = match entries[2].trim_end_matches('\r') {
                     "VipOutput" => SlipType::Normal,
                     "Normal" => SlipType::Normal,
-                    _ => panic!("Invalid slip type"),
+                    _ => {
+                        error!("invalid slip type in line : {:?}", line);
+                        return None;
+                    }
                 };
 
                 let mut slip = Slip::default();
